@@ -258,7 +258,7 @@ def check(rep, tier, seed):
             first.append(h)
         else:
             rest.append(h)
-    budget = 48 if quick else 1600
+    budget = 60 if quick else 1600
     hists = (first + rest)[: max(budget, len(first))] if not quick else (first[:budget] + rest[: max(0, budget - len(first))])
     rep.note("strata", {"distinct": len(need), "behaviours_chosen_for_strata": len(first)})
     rep.note("behaviours", {"enumerated_with_interruptions": total, "replayed": len(hists)})
